@@ -155,7 +155,7 @@ let rec split_at (sep : string) (l : string list) : string list * string list =
   | x :: t -> let (a, b) = split_at sep t in (x :: a, b)
 
 let reply_of_str = function
-  | "E" -> BusErr
+  | "E" | "ET" | "EI" | "EW" | "EF" | "EG" -> BusErr   (* which error the bus call fails with is the harness's business *)
   | "N" -> Rep None
   | s -> Rep (Some (msg_of_str s))
 
@@ -275,6 +275,20 @@ let handle_io (toks : string list) : string =
          Printf.sprintf "%s | %s | %s"
            (match res with Ok r -> "OK " ^ str_omsg r | Err _ -> "ER")
            (hex_of_bytes p'.pt_out.w_out) (hex_of_bytes p'.pt_in.r_content))
+  | "SBS" :: k :: rest ->
+    let k = int_of_string k in
+    let rec take n l = if n = 0 then ([], l) else match l with x :: t -> let (a, b) = take (n - 1) t in (x :: a, b) | [] -> failwith "SBS" in
+    let (msgs, rest) = take k rest in
+    let (tape, rest) = (match rest with tp :: r -> (tp, r) | [] -> failwith "SBS") in
+    let (rs, ws) = split_at "/" rest in
+    let p = ref { pt_in = { r_content = bytes_of_hex tape; r_sched = List.map rd_ev_of_str rs };
+                  pt_out = { w_out = []; w_sched = List.map wr_ev_of_str ws } } in
+    let outs = List.map (fun m ->
+        match serial_process (msg_of_str m) !p with
+        | None -> "FUEL"
+        | Some ((res, p'), _) -> p := p';
+          (match res with Ok r -> "OK " ^ str_omsg r | Err _ -> "ER")) msgs in
+    Printf.sprintf "%s | %s | %s" (String.concat " ; " outs) (hex_of_bytes !p.pt_out.w_out) (hex_of_bytes !p.pt_in.r_content)
   | "OD" :: k :: rest ->
     let (signs, rest) = parse_signs (int_of_string k) rest in
     let rest = (match rest with "|" :: r -> r | r -> r) in
@@ -365,6 +379,7 @@ let handle (line : string) : string =
       | Err e -> str_ferr e in
     Printf.sprintf "%s %s | %s | %s" (hex_of_bytes (encode f)) (hex_of_bytes (encode_nl f))
       (one (encode f)) (one (encode_nl f))
+  | ["NEWS"; _] -> "OK"   (* which static-array conversions exist is API surface; none may yield more than 255 bytes *)
   | ["NEW"; len] ->
     (match data_try_new (List.init (int_of_string len) (fun _ -> N0)) with
      | Ok _ -> "OK" | Err e -> str_ferr e)
@@ -394,7 +409,7 @@ let handle (line : string) : string =
     let (w, h) = dimensions t in
     Printf.sprintf "%s %s %s" (hex_of_bytes (st_to_bytes t)) (pn w) (pn h)
   | ["PN"; id; w; h] -> hex_of_bytes (page_new (num id) (num w) (num h)).p_bytes
-  | ["PB"; w; h; len; seed] ->
+  | ["PB"; w; h; len; seed] | ["PBO"; w; h; len; seed] ->
     let bs = pb_bytes (int_of_string len) (int_of_string seed) in
     (match page_from_bytes (num w) (num h) bs with
      | Ok p -> "OK " ^ hex_of_bytes p.p_bytes
@@ -403,7 +418,7 @@ let handle (line : string) : string =
     let w = num w and h = num h in
     let start = match String.split_on_char '.' src with
       | ["N"; id] -> Some (page_new (num id) w h)
-      | ["B"; b] -> (match page_from_bytes w h (bytes_of_hex b) with Ok p -> Some p | Err _ -> None)
+      | ["B"; b] | ["O"; b] -> (match page_from_bytes w h (bytes_of_hex b) with Ok p -> Some p | Err _ -> None)
       | _ -> failwith "bad PG src" in
     (match start with
      | None -> "ER LEN"
@@ -457,6 +472,18 @@ let handle (line : string) : string =
                     List.iter (fun s -> Buffer.add_string out ("/" ^ obs s)) b';
                     Buffer.add_char out ' ') msgs;
     Printf.sprintf "%s# %s" (Buffer.contents out) (String.concat ";" (List.map (fun s -> str_pages s.v_pages) !b))
+  | "CTS" :: _a :: _t :: ops :: rest ->
+    (* several operations on one Sign object: the model's operations carry no state from one call to the next, so each
+       runs on what is left of the script *)
+    let rec drop n l = if n <= 0 then l else match l with [] -> [] | _ :: t -> drop (n - 1) t in
+    let rec go ops script acc = match ops with
+      | [] -> List.rev acc
+      | op :: more ->
+        let (tr, o) = (cop_of_str op).run_s script in
+        let line = Printf.sprintf "%s => %s" (String.concat " " (List.map str_msg tr)) o in
+        if o = "BLOCKED" || o = "CRASH" then List.rev (line :: acc)
+        else go more (drop (List.length tr) script) (line :: acc) in
+    String.concat " ;; " (go (String.split_on_char ',' ops) (List.map reply_of_str rest) [])
   | "CT" :: op :: _ when (match String.split_on_char '.' op with
                           | "SND" :: _ :: rest ->
                             List.exists (fun (pg : page) -> match page_from_bytes pg.p_w pg.p_h pg.p_bytes with
